@@ -447,6 +447,16 @@ theorem choiceLoop_tr {α} (fv : α → α) (fn : Node → Inp → M → R α)
       simp only [Res.map_fail, restoreOnNone]
       exact ih (k+1) i { m' with stk := m.stk }
 
+theorem repDone_tr {α} (fv : α → α) (min : Nat) (max : Option Nat) (i : Inp) (m : M) (acc : List α) :
+    repDone min max (i.tr a φ) (m.shift a) (acc.map fv) =
+      (repDone min max i m acc).tr a φ (List.map fv) := by
+  unfold repDone
+  cases max with
+  | none => simp only [Res.map_ok, List.map_reverse]
+  | some mx =>
+    simp only [List.length_map]
+    split <;> simp only [Res.map_ok, Res.map_fail, List.map_reverse]
+
 theorem repLoop_tr {α} (fv : α → α) (unit : Nat → Inp → M → R α)
     (hu : ∀ idx i m, unit idx (i.tr a φ) (m.shift a) = (unit idx i m).tr a φ fv)
     (min : Nat) (max : Option Nat) :
@@ -460,7 +470,7 @@ theorem repLoop_tr {α} (fv : α → α) (unit : Nat → Inp → M → R α)
     unfold repLoop
     by_cases hmax : max = some idx
     · simp only [hmax, if_true]
-      split <;> simp only [Res.map_ok, Res.map_fail, List.map_reverse]
+      exact repDone_tr a φ fv min (some idx) i m acc
     · simp only [hmax, if_false]
       rw [hu]
       cases unit idx i m with
@@ -469,10 +479,28 @@ theorem repLoop_tr {α} (fv : α → α) (unit : Nat → Inp → M → R α)
         simp only [Res.map_fail, restoreOnNone]
         split
         · rfl
-        · simp only [Res.map_ok, List.map_reverse]; rfl
+        · exact repDone_tr a φ fv min max i { m' with stk := m.stk } acc
       | ok i' m' v =>
         simp only [Res.map_ok, restoreOnNone]
         exact ih (idx+1) i' m' (v :: acc)
+
+theorem repSkipC_tr (skip : Inp → M → R Unit)
+    (hs : ∀ i m, skip (i.tr a φ) (m.shift a) = (skip i m).tr a φ id) (idx : Nat) :
+    ∀ k i m, repSkipC skip idx k (i.tr a φ) (m.shift a) = (repSkipC skip idx k i m).tr a φ id := by
+  intro k
+  induction k with
+  | zero => intro i m; rfl
+  | succ k ih =>
+    intro i m
+    unfold repSkipC
+    by_cases h0 : idx > 0
+    · simp only [h0, if_true]
+      rw [hs]
+      cases skip i m with
+      | oof => rfl
+      | fail m' => rfl
+      | ok i' m' v => simp only [Res.map_ok]; exact ih i' m'
+    · simp only [h0, if_false]; exact ih i m
 
 theorem repUnitC_tr (skip body : Inp → M → R Unit)
     (hs : ∀ i m, skip (i.tr a φ) (m.shift a) = (skip i m).tr a φ id)
@@ -481,10 +509,8 @@ theorem repUnitC_tr (skip body : Inp → M → R Unit)
       (repUnitC skip body k idx i m).tr a φ id := by
   intro idx i m
   unfold repUnitC
-  have h : skipLoop skip (if idx = 0 then 0 else k) (i.tr a φ) (m.shift a) [] = _ :=
-    skipLoop_tr a φ id skip hs (if idx = 0 then 0 else k) i m []
-  rw [h]
-  cases skipLoop skip (if idx = 0 then 0 else k) i m [] with
+  rw [repSkipC_tr a φ skip hs idx k i m]
+  cases repSkipC skip idx k i m with
   | oof => rfl
   | fail m' => rfl
   | ok i' m' sk => simp only [Res.map_ok]; exact hb i' m'
@@ -767,7 +793,7 @@ theorem parse_tr : ∀ (n : Nat) (inh : Bool) (node : Node) (i : Inp) (m : M),
             simp only [M.shift_withLeave]
             simp only [Val.shift_mk, Tag.shift, List.map_cons, List.map_nil, Inp.tr_pos]
     | array k x =>
-      simp only [parse]
+      simp only [parse, arrayTryInto_arrayLoop]
       have h : arrayLoop (parse g uni n inh x) k (i.tr a φ) (m.shift a) [] = _ :=
         arrayLoop_tr a φ (Val.shift a) _ (ih inh x) k i m []
       rw [h]
